@@ -276,7 +276,7 @@ def strip_last_label(
                 if isinstance(op, SsbLabelJump) and op.label is not None:
                     jump_counts[op.label.id] = jump_counts.get(op.label.id, 0) + 1
 
-            while isinstance(routine[-1], SsbLabel):
+            while len(routine) > 0 and isinstance(routine[-1], SsbLabel):
                 indices_to_remove = set()
                 label = routine[-1]
                 conditional_jumps = [
